@@ -492,9 +492,11 @@ func yield() { runtime.Gosched() }
 
 type rFactory struct{ n *RNode }
 
-func (f *rFactory) GetConfigID() string            { return "verif/g6/restartable-transport" }
-func (f *rFactory) ConstructConfig() config.Config { return &rConfig{Config: &peer_controller.Config{}, n: f.n} }
-func (f *rFactory) GetVersion() semver.Version     { return semver.MustParse("0.0.1") }
+func (f *rFactory) GetConfigID() string { return "verif/g6/restartable-transport" }
+func (f *rFactory) ConstructConfig() config.Config {
+	return &rConfig{Config: &peer_controller.Config{}, n: f.n}
+}
+func (f *rFactory) GetVersion() semver.Version { return semver.MustParse("0.0.1") }
 func (f *rFactory) Construct(ctx context.Context, c config.Config, opts controller.ConstructOpts) (controller.Controller, error) {
 	return f.n.Ctrl, nil
 }
@@ -510,4 +512,71 @@ func (c *rConfig) GetConfigID() string { return "verif/g6/restartable-transport"
 func (c *rConfig) EqualsConfig(o config.Config) bool {
 	oc, ok := o.(*rConfig)
 	return ok && oc.n == c.n
+}
+
+// ---------------------------------------------------------------------------
+// ParkHandler: a directive handler of the harness that holds ONE AddDirective
+// call of an EstablishLinkWithPeer(src, dst) request between "the handlers on
+// the bus were asked for resolvers" and "the resolvers are attached". The bus
+// calls the handlers in the order they were added with its mutex released, so
+// a handler added after the transport controller's (which is re-added by every
+// execution) is asked after it: while the call is parked the harness lets the
+// controller's execution end (its handler is removed from the bus) and a new
+// one begin, then opens the gate: the bus attaches the resolver the ENDED
+// execution's handler returned, which no handler removal will ever remove.
+// This is the AddDirective / controller-exit overlap of the restart cases made
+// a condition instead of a coincidence (a slow sibling handler is an ordinary
+// schedule).
+type ParkHandler struct {
+	src, dst peer.ID
+	armed    atomic.Bool
+	entered  chan struct{}
+	open     chan struct{}
+	openOnce sync.Once
+	rel      func()
+}
+
+// HandleDirective implements directive.Handler.
+func (p *ParkHandler) HandleDirective(ctx context.Context, di directive.Instance) ([]directive.Resolver, error) {
+	d, ok := di.GetDirective().(interface {
+		EstablishLinkSourcePeerId() peer.ID
+		EstablishLinkTargetPeerId() peer.ID
+	})
+	if !ok || d.EstablishLinkSourcePeerId() != p.src || d.EstablishLinkTargetPeerId() != p.dst {
+		return nil, nil
+	}
+	if !p.armed.CompareAndSwap(true, false) {
+		return nil, nil
+	}
+	close(p.entered)
+	<-p.open
+	return nil, nil
+}
+
+// AddParkHandler adds an (unarmed) park handler for requests (src -> dst) to the bus.
+func (w *World) AddParkHandler(src, dst peer.ID) (*ParkHandler, error) {
+	p := &ParkHandler{src: src, dst: dst, entered: make(chan struct{}), open: make(chan struct{})}
+	rel, err := w.Bus.AddHandler(p)
+	if err != nil {
+		return nil, err
+	}
+	p.rel = rel
+	return p, nil
+}
+
+// Arm makes the next matching HandleDirective call park.
+func (p *ParkHandler) Arm() { p.armed.Store(true) }
+
+// Entered is closed when a call is parked.
+func (p *ParkHandler) Entered() <-chan struct{} { return p.entered }
+
+// Open lets the parked call (or any later one) go on.
+func (p *ParkHandler) Open() { p.openOnce.Do(func() { close(p.open) }) }
+
+// Remove opens the gate and removes the handler from the bus.
+func (p *ParkHandler) Remove() {
+	p.Open()
+	if p.rel != nil {
+		p.rel()
+	}
 }
